@@ -115,6 +115,51 @@ Proof.
 Qed.
 
 (* ------------------------------------------------------------------ *)
+(* enqueue_job = Newest check, then `enq_core`, then the Oldest shedding *)
+
+Definition enq_core (w : worker) (j : job) : worker * list ev :=
+  match w_cur w with
+  | None =>
+    match w_q w with
+    | older :: rest => dispatch_job (set_q w (rest ++ [j])) older
+    | [] => dispatch_job w j
+    end
+  | Some _ => (set_q w (w_q w ++ [j]), [])
+  end.
+
+Lemma enqueue_job_unfold c w j :
+  enqueue_job c w j =
+  if (match wsettings c with Some (l, Newest) => negb (w_available w) && (l <=? len (w_q w)) | _ => false end)
+  then (w, [EDiscard (jid j) Loadshed; EReject (jid j)])
+  else let (w1, e1) := enq_core w j in
+       match wsettings c with
+       | Some (l, Oldest) =>
+         let n := (length (w_q w1) - N.to_nat l)%nat in
+         (set_q w1 (skipn n (w_q w1)), EAccept (jid j) :: e1 ++ shed_events (firstn n (w_q w1)))
+       | _ => (w1, EAccept (jid j) :: e1)
+       end.
+Proof. reflexivity. Qed.
+
+Lemma enq_core_facts w j :
+  let w1 := fst (enq_core w j) in
+  w_id w1 = w_id w /\ w_drain w1 = w_drain w /\ w_alive w1 = w_alive w
+  /\ (w_alive w = true -> w_cur w1 <> None)
+  /\ len (w_q w1) <= len (w_q w) + 1
+  /\ (w_alive w = true -> w_cur w = None -> len (w_q w1) = len (w_q w))
+  /\ (w_cur w <> None -> len (w_q w1) = len (w_q w) + 1)
+  /\ (w_q w1 <> [] \/ w_cur w1 <> None).
+Proof.
+  cbn zeta. unfold enq_core. destruct (w_cur w) as [cj|] eqn:Ec.
+  - cbn [fst set_q w_id w_drain w_alive w_cur w_q]. rewrite Ec, len_app. unfold len at 2. cbn [length].
+    repeat split; try congruence; try lia. right. discriminate.
+  - destruct (w_q w) as [|older rest] eqn:Eq; unfold dispatch_job; cbn [set_q w_alive];
+      destruct (w_alive w) eqn:Ea; cbn [fst w_id w_drain w_alive w_cur w_q set_q]; rewrite ?Eq;
+      unfold len; cbn [length]; rewrite ?app_length; cbn [length];
+      repeat split; try congruence; try lia; try discriminate;
+      try (right; discriminate); try (left; discriminate).
+Qed.
+
+(* ------------------------------------------------------------------ *)
 (* C15_queue_bound                                                      *)
 
 Section QueueBound.
@@ -125,7 +170,11 @@ Hypothesis Hd : c_discard c = Some (L, m).
 
 Definition disc_count (q : list job) : N := len (filter (discardable c) q).
 (* a worker's own queue is within the limit whenever the workers carry the limit *)
-Definition wq_ok (w : worker) : Prop := factory_queueing c = false -> len (w_q w) <= L.
+(* ... a stopping actor's queue (dispatch impossible until the supervision event is handled) may
+   hold one job with limit 0 in Newest mode, see docs/notes *)
+Definition dead_bound : N := match m with Oldest => L | Newest => N.max L 1 end.
+Definition wbound (w : worker) : N := if w_alive w then L else dead_bound.
+Definition wq_ok (w : worker) : Prop := factory_queueing c = false -> len (w_q w) <= wbound w.
 Definition fq_ok (q : list job) : Prop := disc_count q <= L.
 Definition QI (s : fstate) : Prop := fq_ok (f_q s) /\ Forall wq_ok (f_pool s).
 
@@ -135,36 +184,39 @@ Proof. unfold wsettings. intros ->. exact Hd. Qed.
 Lemma skipn_len {A} (q : list A) : len (skipn (length q - N.to_nat L) q) <= L.
 Proof. unfold len. rewrite skipn_length. lia. Qed.
 
+Lemma L_le_dead : L <= dead_bound.
+Proof. unfold dead_bound. destruct m; lia. Qed.
+
 Lemma enqueue_job_ok w j : wq_ok w -> wq_ok (fst (enqueue_job c w j)).
 Proof.
-  intros Hw Hn. specialize (Hw Hn). unfold enqueue_job. rewrite (wsettings_nfq Hn).
+  intros Hw Hn. specialize (Hw Hn). rewrite enqueue_job_unfold. rewrite (wsettings_nfq Hn).
+  pose proof (enq_core_facts w j) as (_ & _ & Ha & _ & Hle & Halive & Hbusy & _).
+  destruct (enq_core w j) as [w1 e1]. cbn [fst] in *. unfold wbound, dead_bound in *.
   destruct m.
   - (* Newest *)
     destruct (negb (w_available w) && (L <=? len (w_q w))) eqn:Eshed; cbn [fst]; [exact Hw|].
+    rewrite Ha.
     destruct (w_cur w) as [cj|] eqn:Ec.
-    + cbn [fst set_q w_q].
-      assert (Hav : w_available w = false) by (unfold w_available; rewrite Ec; reflexivity).
+    + assert (Hav : w_available w = false) by (unfold w_available; rewrite Ec; reflexivity).
       rewrite Hav in Eshed. cbn [negb andb] in Eshed. apply N.leb_gt in Eshed.
-      rewrite len_app. unfold len at 2. cbn [length]. lia.
-    + destruct (w_q w) as [|older rest] eqn:Eq.
-      * cbn [dispatch_job fst w_q]. rewrite Eq. exact Hw.
-      * cbn [dispatch_job set_q fst w_q]. rewrite len_app. rewrite len_cons in Hw.
-        unfold len at 2. cbn [length]. lia.
+      rewrite (Hbusy ltac:(discriminate)). destruct (w_alive w); lia.
+    + destruct (w_alive w) eqn:Eal.
+      * rewrite (Halive eq_refl eq_refl). exact Hw.
+      * destruct (w_q w) as [|older rest] eqn:Eq.
+        -- unfold len in *. cbn [length] in *. lia.
+        -- assert (Hav : w_available w = false) by (unfold w_available; rewrite Ec, Eq; reflexivity).
+           rewrite Hav in Eshed. cbn [negb andb] in Eshed. apply N.leb_gt in Eshed. lia.
   - (* Oldest *)
-    cbn [negb andb]. destruct (w_cur w) as [cj|] eqn:Ec.
-    + cbn [fst set_q w_q]. apply skipn_len.
-    + destruct (w_q w) as [|older rest] eqn:Eq.
-      * cbn [dispatch_job fst w_q]. rewrite Eq. exact Hw.
-      * cbn [dispatch_job set_q fst w_q]. rewrite len_app. rewrite len_cons in Hw.
-        unfold len at 2. cbn [length]. lia.
+    cbn [negb andb fst set_q w_q w_alive]. rewrite Ha.
+    pose proof (skipn_len (w_q w1)). destruct (w_alive w); exact H.
 Qed.
 
 Lemma enqueue_job_id w j : w_id (fst (enqueue_job c w j)) = w_id w.
 Proof.
-  unfold enqueue_job.
+  rewrite enqueue_job_unfold.
   destruct (match wsettings c with Some (l, Newest) => _ | _ => false end); [reflexivity|].
-  destruct (w_cur w); [destruct (wsettings c) as [[l [|]]|]; reflexivity|].
-  destruct (w_q w); reflexivity.
+  pose proof (enq_core_facts w j) as (Hid & _). destruct (enq_core w j) as [w1 e1]. cbn [fst] in Hid.
+  destruct (wsettings c) as [[l [|]]|]; cbn [fst set_q w_id]; exact Hid.
 Qed.
 
 Lemma shed_fq_len k fuel : forall q, (length q <= fuel)%nat -> len (fst (shed_fq k L fuel q)) <= L.
@@ -341,10 +393,10 @@ Qed.
 
 Lemma worker_complete_ok w : wq_ok w -> wq_ok (fst (worker_complete w)).
 Proof.
-  intros Hw Hn. specialize (Hw Hn). unfold worker_complete.
-  destruct (w_q w) as [|j r] eqn:E; cbn [dispatch_job set_q set_cur fst w_q].
-  - rewrite E. exact Hw.
-  - rewrite len_cons in Hw. lia.
+  intros Hw Hn. specialize (Hw Hn). unfold worker_complete, wbound in *.
+  destruct (w_q w) as [|j r] eqn:E; unfold dispatch_job; cbn [set_q set_cur w_alive].
+  - cbn [fst w_q w_alive]. rewrite E. exact Hw.
+  - rewrite len_cons in Hw. destruct (w_alive w); cbn [fst w_q w_alive]; rewrite ?len_cons; lia.
 Qed.
 
 Lemma worker_finished_QI s i s' e : worker_finished c s i = (s', e) -> QI s -> QI s'.
